@@ -134,3 +134,54 @@ for _k in (2, 3):
         requires=_xnpv_req,
         cases=[Case('XNPV = sum of v_i / (1+r)**((d_i - d_1)/365) over flows and dates in position', lambda *a: True, _xnpv_ens)],
         call=xnpv_call(False), native_call=xnpv_call(True), bounded_domain_cap=600, max_paths=600, timeout_ms=20000))
+
+
+# ---- IRR: the root finder receives exactly the flows, in order (zero flows included) -----------------------------------------------------
+def irr_call(native, n):
+    def call(it, fn, *flows):
+        import numpy_financial as npf
+        from pyvc.interp import ModelFn
+        got = {}
+        arr = T().Array([list(flows)])
+
+        def fake_irr(values, *a, **k):
+            got['values'] = list(values)
+            return 0.125
+        if native:
+            real = npf.irr
+            try:
+                npf.irr = fake_irr
+                res = fn(arr)
+            finally:
+                npf.irr = real
+        else:
+            it.call_contracts[npf.irr] = ModelFn(lambda it_, values, *a, **k: fake_irr(it.iterate(values) if hasattr(it, 'iterate') else values), 'npf.irr')
+            res = it.call(fn, [arr], {})
+        return dict(res=res, values=got.get('values'))
+    if native:
+        return lambda fn, *v: call(None, fn, *v)
+    return call
+
+
+def irr_ens(*a):
+    out, flows = a[-1], a[:-1]
+    if out.kind != 'ret':
+        return False
+    vals = out.value['values']
+    if vals is None or len(vals) != len(flows):
+        return False                                   # every flow of the series reaches the root finder: a zero flow still occupies its period
+    conj = []
+    for got, f in zip(vals, flows):
+        g = got.value if isinstance(got, T().Number) else got
+        conj.append(spec.eq(g, f.value))
+    r = out.value['res']
+    conj.append(spec.numeric_result(type('O', (), {'kind': 'ret', 'value': r})(), 0.125))
+    return And(*conj)
+
+
+for _n in (3, 4):
+    UNITS.append(Unit(
+        id=f'C20/financial.IRR/wiring#{_n}', target=f'{MOD}:IRR', inputs=[(f'c{i}', V()) for i in range(_n)], fork='star',
+        cases=[Case('IRR is the root found for exactly the given flows in their written order - a zero flow keeps its period', lambda *a: True, irr_ens)],
+        call=irr_call(False, _n), native_call=irr_call(True, _n),
+        cross_key=lambda r: repr([getattr(v, 'value', v) for v in (r['values'] or [])]) if isinstance(r, dict) else repr(r), bounded_domain_cap=200))
